@@ -292,6 +292,11 @@ func (g *Gen) applyContract(fr *frame, st *State, fc *FuncContract, key string, 
 		}
 		g.assume(st, t)
 	}
+	for i, c := range fc.AssumedEnsures {
+		env := &Env{g: g, st: st, old: pre, vars: post, pkgPath: pkgPath}
+		g.assume(st, env.evalBool(c.E))
+		g.trusted["assumed clause "+shortKey(key)+"#"+clauseName(c, i)] = true
+	}
 	g.applyGhostSets(fc, st, pre, post, pkgPath)
 	return res
 }
@@ -428,9 +433,9 @@ func (g *Gen) havocTarget(env *Env, st *State, m Expr) error {
 		}
 		if x.Name == "heap" {
 			saved := g.savePrivate(st)
-			stable := g.stableComps()
+			// (stable fields are protected from opaque callees only; a contract that says "modifies heap" means it)
 			for _, k := range sortedKeys(g.compSort) {
-				if strings.HasPrefix(k, "G|") || stable[k] {
+				if strings.HasPrefix(k, "G|") {
 					continue
 				}
 				st.comps[k] = g.fresh("hv.C."+k, g.compSort[k])
